@@ -12,8 +12,11 @@ import (
 	"github.com/ipni/go-libipni/announce/gossiptopic"
 	"github.com/ipni/go-libipni/announce/message"
 	"github.com/ipni/go-libipni/announce/p2psender"
+	pubsub "github.com/libp2p/go-libp2p-pubsub"
+	pubsubpb "github.com/libp2p/go-libp2p-pubsub/pb"
 	"github.com/libp2p/go-libp2p/core/peer"
 	"github.com/multiformats/go-multiaddr"
+	"golang.org/x/crypto/blake2b"
 
 	"verif/sim/simkit"
 )
@@ -72,7 +75,51 @@ func runC09P(r *simkit.Run, c Cfg) {
 		r.ParkHook("allow.call", who+" "+nameOf(p), nil)
 		return !denied[p]
 	}
-	rc, err := announce.NewReceiver(pw.recv, topicName, announce.WithAllowPeer(allow), announce.WithFilterIPs(filterIPs), announce.WithResend(resend))
+	ropts := []announce.Option{announce.WithAllowPeer(allow), announce.WithFilterIPs(filterIPs), announce.WithResend(resend)}
+	// In half of the resend runs the receiver is given its topic (WithTopic)
+	// on a pubsub instance whose validator rejects the receiver's own
+	// messages for some CIDs: republishing those fails. A failed
+	// republication must not keep the announcement from being delivered.
+	pubFails := map[string]bool{}
+	ownTopic := resend && tp.Chance(1, 2, "ownTopic")
+	if ownTopic {
+		pctx, pcancel := context.WithCancel(context.Background())
+		defer pcancel()
+		ps, err := pubsub.NewGossipSub(pctx, pw.recv,
+			pubsub.WithPeerExchange(true),
+			pubsub.WithMessageIdFn(func(pmsg *pubsubpb.Message) string {
+				h, _ := blake2b.New256(nil)
+				h.Write(pmsg.Data)
+				return string(h.Sum(nil))
+			}),
+			pubsub.WithFloodPublish(true))
+		if err != nil {
+			r.Violate("c09.setup", "NewGossipSub: %v", err)
+			return
+		}
+		self := pw.recv.ID()
+		err = ps.RegisterTopicValidator(topicName, func(ctx context.Context, from peer.ID, m *pubsub.Message) bool {
+			if from != self {
+				return true
+			}
+			var mm message.Message
+			if mm.UnmarshalCBOR(bytes.NewReader(m.Data)) != nil {
+				return true
+			}
+			return !pubFails[mm.Cid.String()]
+		}, pubsub.WithValidatorInline(true))
+		if err != nil {
+			r.Violate("c09.setup", "RegisterTopicValidator: %v", err)
+			return
+		}
+		rtopic, err := ps.Join(topicName)
+		if err != nil {
+			r.Violate("c09.setup", "Join: %v", err)
+			return
+		}
+		ropts = append(ropts, announce.WithTopic(rtopic))
+	}
+	rc, err := announce.NewReceiver(pw.recv, topicName, ropts...)
 	if err != nil {
 		r.Violate("c09.setup", "NewReceiver: %v", err)
 		return
@@ -134,6 +181,9 @@ func runC09P(r *simkit.Run, c Cfg) {
 	cids := make([]cid.Cid, ncids)
 	for i := range cids {
 		cids[i] = RawCid(fmt.Sprintf("c%d", i))
+		if ownTopic && tp.Chance(1, 3, "pubFails") {
+			pubFails[cids[i].String()] = true
+		}
 	}
 	mkAddrs := func() ([]addrSpec, []multiaddr.Multiaddr) {
 		var as []addrSpec
@@ -184,7 +234,13 @@ func runC09P(r *simkit.Run, c Cfg) {
 				case "direct":
 					directQ[simkit.CurGID()] = j.p
 					if err := rc.Direct(bg, j.p.c, peer.AddrInfo{ID: j.p.src, Addrs: j.ms}); err != nil && !stop {
-						r.Violate("c09.direct", "Direct returned %v", err)
+						if pubFails[j.p.c.String()] {
+							// reporting the failed republication is the caller's
+							// business; delivery is still owed (checked below)
+							r.Probe("direct-reports-failed-republication")
+						} else {
+							r.Violate("c09.direct", "Direct returned %v", err)
+						}
 					}
 				case "uncache":
 					rc.UncacheCid(j.p.c)
@@ -353,6 +409,10 @@ func runC09P(r *simkit.Run, c Cfg) {
 		want := map[string]bool{}
 		for _, e := range expect {
 			if e.kind != "direct" {
+				continue
+			}
+			if pubFails[e.c.String()] {
+				r.Probe("delivered-although-republication-failed")
 				continue
 			}
 			var as []string
